@@ -219,8 +219,14 @@ func (b *Body) Field(r node.FieldRequest, hnd *node.ValueHandle) error {
 	return nil
 }
 
+// Next on a container: a document rooted at the parent of a list can stand in for the list
+// (the way the JSON reader allows for ReplaceFrom on a list entry)
 func (b *Body) Next(r node.ListRequest) (node.Node, []val.Value, error) {
-	return nil, nil, fmt.Errorf("refstore: Next on a container %s", b.Id)
+	s, d := locate(b.Kids, b.Data, r.Meta.Ident())
+	if s == nil || s.Kind != "list" {
+		return nil, nil, fmt.Errorf("refstore: Next on a container %s", b.Id)
+	}
+	return (&List{Rec: b.Rec, S: s, D: d, Id: b.Id + "/" + s.Name}).Next(r)
 }
 
 func (b *Body) Choose(sel *node.Selection, choice *meta.Choice) (*meta.ChoiceCase, error) {
